@@ -51,7 +51,7 @@ THEOREMS = [
     "Ural.Props.C14.api_unquote_contract",
     "Ural.Props.C14.api_delimiters",
     "Ural.Props.C14.api_functions",
-    # FX-C01-NFKCUSERINFO: safely_unquote_auth_item = the partial, then the NFKC look-alikes of a delimiter re-quoted
+    # FX-C01-194b1c7: safely_unquote_auth_item = the partial, then the NFKC look-alikes of a delimiter re-quoted
     "Ural.Props.C14.tables_auth_wrapper",
     "Ural.Props.C14.auth_item_contract",
     "Ural.Props.C14.qsl_contract",
@@ -163,7 +163,7 @@ CORPUS = [
     # upper_quoted: every shape of LOWERCASE_QUOTED_RE's three alternatives, and its look-alikes
     "%2f", "%f2", "%ff", "%fF", "%Ff", "%FF", "%22", "%c3%a9", "%aG", "%ga", "%%2f", "%2%2f", "%2f%", "%2ff",
     "f%2f/é%c3", "%é2f", "%2\u00e9f", "a?é%41\n[%2f",
-    # FX-C01-NFKCUSERINFO: safely_unquote_auth_item keeps escaped a character whose NFKC form holds a url delimiter
+    # FX-C01-194b1c7: safely_unquote_auth_item keeps escaped a character whose NFKC form holds a url delimiter
     # (U+FF20 '@', U+FF1A ':', U+2100 'a/c'), written with escapes of either case, raw, behind an ill-formed byte, next
     # to a decoded character; the other three unquoters decode it
     "%EF%BC%A0x", "%ef%bc%a0x%C3%A9", "u%EF%BC%9A%40", "\uff20", "a\uff0f%EF%BC%9F", "%EF%EF%BC%A0", "%EF%BC\uff20%A0", "%E2%84%80%e2%84%80",
@@ -172,7 +172,7 @@ CORPUS = [
 
 def _nfkc_lookalikes():
     """every code point of the regenerated table Gen.nfkcDelimCodes (what the running urlsplit refuses in a netloc),
-    escaped (upper / lower case), raw, and between text: the class of FX-C01-NFKCUSERINFO for the unquoters"""
+    escaped (upper / lower case), raw, and between text: the class of FX-C01-194b1c7 for the unquoters"""
     from gen_tables.c08 import nfkc_rejected_codes
 
     out = []
@@ -452,7 +452,7 @@ def nontrivial(case):
     return None
 
 
-# a few characters of the class of FX-C01-NFKCUSERINFO (raw or escaped), for the distribution only
+# a few characters of the class of FX-C01-194b1c7 (raw or escaped), for the distribution only
 _NFKC_LOOKALIKE = re.compile("[\uff20\uff0f\uff1a\uff1f\uff03\u2100]|%[Ee][Ff]%[Bb][Cc]%(?:[Aa]0|8[Ff]|9[AaFf]|83)|%[Ee]2%84%80")
 
 
